@@ -71,9 +71,12 @@ def innermost_is_library(exc):
     while tb is not None:
         frames.append(tb.tb_frame.f_code.co_filename)
         tb = tb.tb_next
-    for fn in reversed(frames):
+    callbacks = os.path.join(VERIF_DIR, "vlib", "gen.py")  # the hashing strategies handed to the library: user callbacks - an
+    for fn in reversed(frames):                           # exception inside one is blamed on whoever CALLED it with that input
         if _is_lib_frame(fn):
             return True
+        if os.path.realpath(fn) == callbacks:
+            continue
         if os.path.realpath(fn).startswith(VERIF_DIR + os.sep):
             return False
     return False
